@@ -433,7 +433,13 @@ impl Property for C20 {
                 c.big_hdr = 0;
                 out.push(c);
             }
-            for c2 in [count / 2, count - 1] {
+            // (geometric steps only: every candidate costs a process execution on a file of that size)
+            let mut steps = vec![count / 2, count - count / 4, count - count / 16, count - count / 256];
+            if count <= 1024 {
+                steps.push(count - 1);
+            }
+            steps.dedup();
+            for c2 in steps {
                 if c2 > 0 && c2 != count {
                     let mut c = t.clone();
                     c.big = Some((c2, tail));
